@@ -548,6 +548,44 @@ class Tokens:
                 "traces_validated_against_impl": r["cases"], "timeouts": r["timeouts"], "aborts": r["aborts"], "exhaustive": False}
 
 
+class StructuralFam:
+    PROPS = ["C12", "C13", "C14", "C15", "C33"]
+    ASSUMPTIONS = ["one abstract two-sheet workbook (Structural.tla): numbers, a quote-prefixed text, 12 literals that are sensitive to re-entry (TRUE, a 15-digit decimal, text, 'TRUE, 1e3, an ISO date, 50%, $5.5, '=A1, #N/A, a URL, '1e3), bold cells, 9 formulas with relative / absolute / mixed, cross-sheet, range, whole-column, whole-row and defined-name references, row heights, column widths, 4 hyperlinks, one conditional format with a reference in its rule, one global defined name",
+                   "actions on sheet 1, rows and columns 1..Last: insert / delete 1..MaxK rows or columns, move 1..MaxK rows or columns by -MaxD..MaxD, clear one cell, undo after a clear, cut one linked cell and paste it on an empty cell; quick: Last 5, MaxK 2, MaxD 2, every sequence of 2 actions; thorough: Last 6, MaxK 3, MaxD 3",
+                   "expected state from one position map sigma per action; references are read back from the displayed formula with the engine's own parser; a literal must show exactly what it showed at the start (content, type, formatted value, bold) at its new position; a formula the spec marks as preserved must show its initial formatted value",
+                   "left open as the statements leave them open: a range one of whose ends is deleted (shrunk or #REF!), ranges that straddle a moved block, values of formulas that read deleted cells or whole columns under a row move; not covered: references pushed off the grid edge, array formulas and spills, hidden rows in the landing zone of a move, column / row styles",
+                   "attribution: first-step insertion C12; deletion C13; delete directly after the same insertion C14; moves C15; links, conditional-format area and rule formula, clear / undo / cut C33 (whatever the action)"]
+
+    @staticmethod
+    def run(d, tier, seed):
+        res = {"violations": {p: [] for p in StructuralFam.PROPS}}
+        cfg = open(os.path.join(SPEC, "Structural.cfg")).read()
+        if tier == "thorough":
+            cfg = cfg.replace("Last = 5", "Last = 6").replace("MaxK = 2", "MaxK = 3").replace("MaxD = 2", "MaxD = 3")
+        out, st, dt = run_tlc("Structural.tla", cfg, d, "structural", workers=8, timeout=3000)
+        path = os.path.join(d, "beh.ndjson")
+        n = cases_from(out, path, tag="BEHAVIOUR")
+        if n == 0:
+            raise ToolError("Structural.tla printed no behaviours")
+        rr, dt2 = icverif(["structural", "--in", path, "--out", os.path.join(d, "out")], timeout=3400)
+        os.remove(path)
+        res["tlc"] = {"states": st["distinct"], "transitions": st["generated"], "seconds": round(dt, 1), "behaviours": n}
+        res["run"] = rr
+        res["run"]["seconds"] = round(dt2, 1)
+        collect(res, "C12", os.path.join(d, "out", "mismatches.ndjson"))
+        return res
+
+    @staticmethod
+    def evidence_for(prop, res):
+        r = res["run"]
+        return {"states": res["tlc"]["states"], "transitions": res["tlc"]["transitions"], "traces_validated_against_impl": r["cases"],
+                "samples": r["samples"][:3] or [{"note": "no sample"}], "evaluations": r["checks"], "distinct_nontrivial": r["distinct_nontrivial"],
+                "steps_attributed_to_this_property": r.get("steps_by_property", {}).get(prop, 0), "steps_by_property": r.get("steps_by_property", {}),
+                "rule": "every behaviour of Structural.tla of the stated length replayed through UserModel; after every step cells, references, preserved values, sizes, links, conditional format and defined names compared with the spec state; "
+                        "evaluations = individual comparisons; distinct_nontrivial = distinct (action, preserved formula) and (action, position) pairs checked.",
+                "exhaustive": True, "spec_invariants": ["InsertDeleteIdentity", "ClearUndoIdentity"], "spec_properties": ["MovePermutes", "InsertLosesNothing"], "no_verdict": r.get("no_verdict", 0)}
+
+
 def replay_case(prop, path):
     with open(path) as f:
         payload = json.load(f)
@@ -568,3 +606,6 @@ def _wrap(cls, name):
 
 
 TABLE = {"C21": _wrap(Calendar, "calendar"), "C22": _wrap(Grid, "grid"), "C23": _wrap(Lang, "lang"), "C34": _wrap(F4, "f4"), "C19": _wrap(NumberInput, "numinput"), "C20": _wrap(NumberFormat, "numformat"), "C09": _wrap(Formula, "formula"), "C29": _wrap(ColAttrs, "colattrs"), "C30": _wrap(StylesFam, "styles"), "C11": _wrap(Tokens, "tokens"), "C08": _wrap(FiniteFam, "finite"), "C25": _wrap(XlsxFaultsFam, "xlsxfaults")}
+_st = _wrap(StructuralFam, "structural")
+for _p in StructuralFam.PROPS:
+    TABLE[_p] = _st
